@@ -24,7 +24,8 @@ ENGINE = "E1-explore"
 TECHNIQUE = "runtime monitoring: capacity-counter + FIFO reference model compared event-by-event after every step"
 RULE = ("E1: all histories over {acquire (hold | release inside the grant callback | acquire again inside the "
         "grant callback), release by holder h, cancel acquisition a (pending, or granted once), run(f succeeds | "
-        "f raises | f returns an unfired Deferred), fire f's Deferred ok/fail, cancel a run Deferred (pending or "
+        "f raises | f returns an unfired Deferred | a fired Deferred whose chain waits on a pending one | a fired-and-"
+        "paused Deferred), fire f's Deferred ok/fail, cancel a run Deferred (pending or "
         "waiting on f's Deferred)} for DeferredLock and DeferredSemaphore(1..3) to depth 10 (quick) / 11 (thorough) "
         "with at most 4 (quick) / 5 (thorough) live requests, pruned by hashing (model state, real waiting length, locked/tokens); plus "
         "random histories of 2000 steps with up to 8 live requests, and biased grow/churn/drain histories of 1500 steps "
@@ -38,7 +39,8 @@ SHARDS = {"quick": 4, "thorough": 16}
 FLOORS = {"step_comparisons": 5000, "grants": 2000, "queued_then_granted": 300, "cancelled_pending": 200,
           "cancel_of_granted": 100, "run_releases": 500, "run_cancel_reached_function_deferred": 50,
           "reentrant_ops": 200, "no_wait_checks": 5000, "steps_with_more_than_5_pending": 3000,
-          "grants_out_of_a_queue_longer_than_5": 500, "cancellations_deep_in_a_long_queue": 300}
+          "grants_out_of_a_queue_longer_than_5": 500, "cancellations_deep_in_a_long_queue": 300,
+          "run_functions_returning_fired_but_unfinished_deferred": 2000}
 READY = True
 
 CONFIGS = [("lock", 1), ("sem", 1), ("sem", 2), ("sem", 3)]
@@ -68,7 +70,8 @@ class Boom(Exception):
 
 
 class World:
-    def __init__(self, ctx, prim, limit, cap=4):
+    def __init__(self, ctx, prim, limit, cap=4, run_kinds=("ok", "raise", "dfr", "chn", "psd")):
+        self.run_kinds = run_kinds
         c = _classes()
         self.defer = c["defer"]
         self.ctx = ctx
@@ -87,7 +90,9 @@ class World:
         self.r_ids = {"a": 0, "r": 0}
         self.acq_d = {}              # a -> acquire Deferred
         self.run_d = {}              # r -> run Deferred
-        self.f_d = {}                # r -> Deferred returned by f
+        self.f_d = {}                # r -> Deferred the harness fires / unpauses to make f's result available
+        self.psd = set()             # runs whose function returned a fired-and-paused Deferred
+        self.psd_fail = set()
         self.r_pending = set()       # requests whose Deferred has neither fired nor started
         self.r_holding = 0
         self.expect_direct = False
@@ -123,8 +128,8 @@ class World:
                     self.m_request("a", "hold")
         else:
             self.mlog.append(("start", x[1]))
-            if kind == "dfr":
-                self.m_holders.append(x)
+            if kind in ("dfr", "chn", "psd"):
+                self.m_holders.append(x)          # the function's result is not available yet
             else:
                 self.mlog.append(("release-by-run",))
                 self.m_release()
@@ -165,6 +170,8 @@ class World:
             if x in self.m_queue:
                 self.m_queue.remove(x)
                 self.mlog.append(("done", a[1], "CANCELLED"))
+            elif self.m_kind[x] == "psd":
+                self.m_cancelled_once.add(x)       # f's Deferred has fired (it is only paused): cancel() is a no-op
             else:
                 self.mlog.append(("fcancel", a[1]))
                 self.m_finish_run(a[1], "CANCELLED")
@@ -238,8 +245,23 @@ class World:
                 return ("value", r)
             if kind == "raise":
                 raise Boom(r)
+            if kind == "psd":
+                # fired-and-paused: `called` is true, but the result is only available after unpause()
+                self.ctx.count("run_functions_returning_fired_but_unfinished_deferred")
+                o = self.defer.succeed(("dvalue", r))
+                o.pause()
+                o.addCallback(lambda v: self.raise_(Boom("d", r)) if r in self.psd_fail else v)   # decided at unpause time
+                self.f_d[r] = o
+                self.psd.add(r)
+                return o
             fd = self.defer.Deferred(lambda _: (self.log.append(("fcancel", r)), self.ctx.count("run_cancel_reached_function_deferred")))
             self.f_d[r] = fd
+            if kind == "chn":
+                # fired-but-chained: `called` is true, its callback chain waits on the pending fd
+                self.ctx.count("run_functions_returning_fired_but_unfinished_deferred")
+                o = self.defer.succeed(None)
+                o.addCallback(lambda _: fd)
+                return o
             return fd
 
         def done(v):
@@ -282,7 +304,11 @@ class World:
             elif op == "cancel":
                 self.acq_d[a[1]].cancel()
             elif op == "fire":
-                if a[2]:
+                if a[1] in self.psd:
+                    if not a[2]:
+                        self.psd_fail.add(a[1])
+                    self.f_d[a[1]].unpause()
+                elif a[2]:
                     self.f_d[a[1]].callback(("dvalue", a[1]))
                 else:
                     self.f_d[a[1]].errback(Boom("d", a[1]))
@@ -291,20 +317,25 @@ class World:
         except BaseException as e:  # noqa
             self.log.append(("error", op, type(e).__name__, str(e)[:80]))
 
+    def raise_(self, e):
+        raise e
+
     # ---- E1 interface -------------------------------------------------------------------------
     def actions(self):
         if self.dead:
             return []
         acts = []
         if len(self.m_queue) + len(self.m_holders) < self.cap:
-            acts += [("acq", "hold"), ("acq", "relnow"), ("acq", "reacq"), ("run", "ok"), ("run", "raise"), ("run", "dfr")]
+            acts += [("acq", "hold"), ("acq", "relnow"), ("acq", "reacq")] + [("run", k) for k in self.run_kinds]
         for x in self.m_holders:
             if x[0] == "a":
                 acts.append(("rel", x[1]))
                 if x not in self.m_cancelled_once:
                     acts.append(("cancel", x[1]))
             else:
-                acts += [("fire", x[1], True), ("fire", x[1], False), ("cancelrun", x[1])]
+                acts += [("fire", x[1], True), ("fire", x[1], False)]
+                if x not in self.m_cancelled_once:
+                    acts.append(("cancelrun", x[1]))
         for x in self.m_queue:
             acts.append(("cancel", x[1]) if x[0] == "a" else ("cancelrun", x[1]))
         return acts
@@ -396,11 +427,14 @@ def classify(action, exp, got, queued_before):
 
 def run(ctx):
     depth = 10 if ctx.quick else 11
-    for ci, (prim, limit) in enumerate(CONFIGS):
-        def mk(prim=prim, limit=limit):
-            return World(ctx, prim, limit, cap=4 if ctx.quick else 5)
+    # two exhaustive passes: the full depth with f returning an un-fired Deferred, and 4 levels less with f returning
+    # a fired-but-unfinished Deferred (chained on a pending one / paused) instead
+    for ci, (prim, limit, kinds, depth) in enumerate([c + (("ok", "raise", "dfr"), depth) for c in CONFIGS] +
+                                                     [c + (("ok", "chn", "psd"), depth - 4) for c in CONFIGS]):
+        def mk(prim=prim, limit=limit, kinds=kinds):
+            return World(ctx, prim, limit, cap=4 if ctx.quick else 5, run_kinds=kinds)
 
-        def on_node(w, history, ci=ci):
+        def on_node(w, history, ci=ci, depth=depth):
             ctx.evaluated()
             if len(history) >= 2 and ctx.n_distinct < 40000:   # every DFS node is a different history; keep the hash set small
                 ctx.distinct((ci, tuple(history)))
